@@ -1,17 +1,27 @@
 #!/usr/bin/env python3
-"""Collects a sub-agent's deliverables (/tmp/seedout_<prop>/mutation<i>.diff, demo<i>_test.go, notes<i>.md) into
-/verif/seeded/<prop>-m<i>/ with an initial meta.json (completed by seed_eval.py)."""
-import json, os, shutil, sys, re
+"""Collects a sub-agent's deliverables (<src>/mutation<i>.diff, demo<i>_test.go, notes<i>.md) into
+/verif/seeded/<prop>-m<k>/ with an initial meta.json (completed by seed_eval.py).
+usage: collect_seeds.py [--src '/tmp/seedout_{prop}'] <prop>...     (k continues after the existing seeds of <prop>)"""
+import json, os, shutil, sys, re, glob
 titles = {json.loads(l)['id']: json.loads(l)['title'] for l in open('/verif/properties.jsonl')}
-for prop in sys.argv[1:]:
-    src = f'/tmp/seedout_{prop}'
+args = sys.argv[1:]
+srcpat = '/tmp/seedout_{prop}'
+if args and args[0] == '--src':
+    srcpat = args[1]; args = args[2:]
+for prop in args:
+    src = srcpat.format(prop=prop)
+    have = [int(re.search(r'-m(\d+)$', d).group(1)) for d in glob.glob(f'/verif/seeded/{prop}-m*')]
+    k = max(have) if have else 0
     for i in range(1, 10):
         d = f'{src}/mutation{i}.diff'
         if not os.path.exists(d):
             continue
-        dst = f'/verif/seeded/{prop}-m{i}'
-        if os.path.exists(dst + '/patch.diff'):
-            print('exists', dst); continue
+        # already collected? (same patch text)
+        txt = open(d).read()
+        if any(os.path.exists(x + '/patch.diff') and open(x + '/patch.diff').read() == txt for x in glob.glob(f'/verif/seeded/{prop}-m*')):
+            print('already collected', d); continue
+        k += 1
+        dst = f'/verif/seeded/{prop}-m{k}'
         os.makedirs(dst, exist_ok=True)
         shutil.copy(d, dst + '/patch.diff')
         shutil.copy(f'{src}/demo{i}_test.go', dst + '/demo_test.go')
@@ -20,8 +30,7 @@ for prop in sys.argv[1:]:
         demo = open(dst + '/demo_test.go').read()
         m = re.search(r'func (TestSeed\w*)\(', demo)
         meta = {'property': prop, 'title': titles[prop],
-                'origin': 'independent sub-agent given only the property text and a scratch worktree',
-                'test': m.group(1) if m else f'TestSeed{i}', 'go_test_flags': '', 'demo_runs': 1,
-                'needs_to_manifest': 'see notes.md'}
+                'origin': 'independent sub-agent given only the property text (and a list of changes already tried) and a scratch worktree',
+                'test': m.group(1) if m else f'TestSeed{i}', 'go_test_flags': '', 'demo_runs': 1}
         json.dump(meta, open(dst + '/meta.json', 'w'), indent=1)
         print('collected', dst, meta['test'])
